@@ -1,36 +1,60 @@
 #!/usr/bin/env python3
-"""Apply each sensitivity mutant of sensitivity/mutants.py to /repo, run the quick check (no evidence
-written), restore the tree, and record the outcome in sensitivity/results.json. Developer tool."""
+"""tools/run_mutants.py [--jobs N] [ids or property ids...]
+Apply each sensitivity mutant of sensitivity/mutants.py to a scratch worktree of /repo HEAD (never to /repo itself), run
+the quick check against it (MSDM_REPO; no evidence written) and record the outcome in sensitivity/results.json.
+Developer tool."""
 import json, os, subprocess, sys, time
+from concurrent.futures import ThreadPoolExecutor
 ROOT = os.path.dirname(os.path.dirname(os.path.abspath(__file__)))
 sys.path.insert(0, os.path.join(ROOT, "sensitivity"))
 from mutants import M
-only = set(sys.argv[1:])
+args = sys.argv[1:]
+jobs = 4
+if args[:1] == ["--jobs"]:
+    jobs, args = int(args[1]), args[2:]
+only = set(args)
 respath = os.path.join(ROOT, "sensitivity", "results.json")
 results = json.load(open(respath)) if os.path.exists(respath) else {}
-if subprocess.run(["git", "-C", "/repo", "diff", "--quiet"]).returncode != 0:
-    sys.exit("repo dirty")
-for mid, pid, f, old, new, props in M:
-    if only and mid not in only and pid not in only:
-        continue
-    path = os.path.join("/repo", f)
-    src = open(path).read()
-    if old not in src:
-        results[mid] = {"property": pid, "outcome": "TARGET NOT FOUND"}
-        print(mid, "TARGET NOT FOUND"); continue
-    open(path, "w").write(src.replace(old, new, 1))
-    t0 = time.time()
+
+
+def sh(cmd):
+    return subprocess.run(cmd, shell=True, capture_output=True, text=True)
+
+
+def one(m):
+    mid, pid, f, old, new, props = m
+    wt = f"/tmp/wt/mut_{mid}"
+    sh(f"git -C /repo worktree remove --force {wt}")
+    r = sh(f"git -C /repo worktree add -q --detach {wt} HEAD")
+    if r.returncode:
+        return mid, {"property": pid, "outcome": "worktree-failed"}
     try:
+        path = os.path.join(wt, f)
+        src = open(path).read()
+        if old not in src:
+            return mid, {"property": pid, "outcome": "TARGET NOT FOUND"}
+        open(path, "w").write(src.replace(old, new, 1))
+        t0 = time.time()
+        env = dict(os.environ, MSDM_REPO=wt, VERIF_REPLAY_DIR=f"/tmp/rp_mut_{mid}")
         cmd = [os.path.join(ROOT, "check"), pid, "--no-evidence"] + (["--props", props] if props else [])
-        r = subprocess.run(cmd, capture_output=True, text=True, timeout=900)
-        names = sorted({l.split()[1].rstrip(":") for l in r.stdout.splitlines() if l.startswith("violation ")})
-        outcome = {0: "MISSED", 1: "caught", 2: "harness-error"}.get(r.returncode, f"exit {r.returncode}")
-    except subprocess.TimeoutExpired:
-        names, outcome = [], "timeout"
+        try:
+            r = subprocess.run(cmd, capture_output=True, text=True, timeout=1800, env=env)
+            names = sorted({l.split()[1].rstrip(":") for l in r.stdout.splitlines() if l.startswith("violation ")})
+            outcome = {0: "MISSED", 1: "caught", 2: "harness-error"}.get(r.returncode, f"exit {r.returncode}")
+        except subprocess.TimeoutExpired:
+            names, outcome = [], "timeout"
+        return mid, {"property": pid, "file": f, "mutation": f"{old.strip()[:90]!r} -> {new.strip()[:90]!r}", "outcome": outcome,
+                     "assertions": names[:6], "seconds": round(time.time() - t0, 1)}
     finally:
-        subprocess.run(["git", "-C", "/repo", "checkout", "--", "."])
-    results[mid] = {"property": pid, "file": f, "mutation": f"{old.strip()[:90]!r} -> {new.strip()[:90]!r}", "outcome": outcome,
-                    "assertions": names[:6], "seconds": round(time.time() - t0, 1)}
-    print(mid, outcome, names[:4], flush=True)
-    json.dump(results, open(respath, "w"), indent=1)
-subprocess.run(["rm", "-rf", os.path.join(ROOT, "replays")])
+        sh(f"git -C /repo worktree remove --force {wt}")
+        sh(f"rm -rf /tmp/rp_mut_{mid}")
+
+
+todo = [m for m in M if not only or m[0] in only or m[1] in only]
+with ThreadPoolExecutor(max_workers=jobs) as ex:
+    for mid, r in ex.map(one, todo):
+        results[mid] = r
+        print(mid, r["outcome"], r.get("assertions", [])[:4], flush=True)
+        json.dump(results, open(respath, "w"), indent=1)
+c = [r["outcome"] for r in results.values()]
+print({k: c.count(k) for k in sorted(set(c))})
